@@ -611,3 +611,7 @@ def run(ctx):
     r8_register_liveness(ctx)
     c05.r6_error_unwinding(ctx, "C15.R9")
     c05.r11_resume_label_abandons_active_calls(ctx, "C15.R10")
+    # every value enqueued for the by-reference write-back is dequeued: the call templates stash and write back
+    # the same argument list, in the prescribed order
+    from . import c03
+    c03.r4_activation_pairing(ctx, "C15.R11")
